@@ -5,6 +5,7 @@
 -/
 import PsModel.Iterator
 import PsProofs.IterSim
+import PsModel.Generated.Locks
 
 namespace Ps.Props
 open Ps
@@ -55,5 +56,18 @@ theorem C17_prev_keeps_no_generator (env : Env) (st : Iter) : (genPrevLoop env s
   fun_induction genPrevLoop env st with
   | case1 st u blk hb h2 hm ih => exact ih
   | case2 st u blk hb => rfl
+
+/-- **C17 (model sources)** regenerated on every run: digests of the (comment-, hook- and whitespace-normalised) bodies of the
+    functions that the hand-written model behind the theorems of this file mirrors.  An edit to one of
+    them — harmless or not — breaks this obligation; the check then searches for a failing input
+    with the correspondence streams (DESIGN.md section 2, step 5). -/
+theorem C17_model_sources :
+    Gen.modelSources.filter (fun e => e.1 ∈ ["iterator.jump_to", "iterator.clear", "IteratorHelper.getNextDist", "IteratorHelper.getPrevDist", "iterator-c.clear", "iterator-c.free_iterator"]) =
+     [("iterator.jump_to", "130c2420f114441dcb1e"),
+      ("iterator.clear", "aa40e08e21600bb96ea4"),
+      ("IteratorHelper.getNextDist", "fe0225e589ca1011db71"),
+      ("IteratorHelper.getPrevDist", "ccd93277a94283fb7359"),
+      ("iterator-c.clear", "0bfc2a109ad41a52c480"),
+      ("iterator-c.free_iterator", "92349951134908b1f05a")] := by decide
 
 end Ps.Props
